@@ -208,7 +208,8 @@ type Scan struct {
 	InitFuncs       []string // the init-time subset of Funcs
 	InstWriteSites  []string // "func ~> pkg.Type.field": the functions behind InstWrites
 	SharedTypes     []string // library struct types of which an instance is reachable from a package-level variable (by type)
-	SharedTypeWrites []string // the InstWriteSites whose Type is in SharedTypes: a field of an object that may be shared is written after construction (e.g. lazily built tables)
+	AliasFieldWrites []string // "func ~> pkg.Type.field": the backing store of a slice/map/pointer field is written or handed on through a local alias (over-approximation; used for shared types only)
+	SharedTypeWrites []string // the InstWriteSites and AliasFieldWrites whose Type is in SharedTypes: a field of an object that may be shared is written after construction (e.g. lazily built tables)
 	SyncUses        []string // "pkg.Decl: sync.X": every mention of package sync / sync/atomic (locks, Once, pools, atomics)
 	GoStmts         []string // "func": functions containing a go statement
 	ChanOps         []string // "func": functions containing a channel send / receive / select / make(chan)
